@@ -36,6 +36,14 @@ class RegexVal:
 
     def __init__(self, pattern, flags):
         self.pattern, self.flags = pattern, int(flags)
+        # global inline flags written at the head of the pattern ("(?i)...") are flags of the compiled regex
+        try:
+            import re as _re
+            import re._parser as _sp
+            st_ = _sp.parse(pattern, self.flags).state.flags
+            self.flags |= st_ & (_re.I | _re.M | _re.S | _re.X | _re.A)
+        except Exception:
+            pass
 
     def __repr__(self):
         return f"re.compile({self.pattern!r}, {self.flags})"
@@ -225,6 +233,8 @@ class Folder:
             v = ev(node.value)
             if isinstance(v, EnumVal) and node.attr == "value":
                 return v.value
+            if isinstance(v, EnumVal) and node.attr == "name":
+                return v.name
             raise NotConst("attribute " + ast.unparse(node))
         if isinstance(node, ast.Subscript):
             base = ev(node.value)
@@ -261,11 +271,29 @@ class Folder:
             raise NotConst("f-string")
         raise NotConst("expr " + type(node).__name__)
 
+    def _iterable(self, v):
+        """what iterating the value yields: an enum class yields its members in definition order"""
+        if isinstance(v, tuple) and len(v) == 2 and v[0] == "class":
+            mem = self.enum_members(v[1])
+            if mem is None:
+                raise NotConst("iteration over a class")
+            seen, out = set(), []
+            for nm, val in mem.items():
+                key = (type(val).__name__, val) if isinstance(val, (int, str)) else id(val)
+                if key in seen:
+                    continue  # an alias of an earlier member is not yielded
+                seen.add(key)
+                out.append(EnumVal(v[1].name, nm, val))
+            return out
+        if isinstance(v, (list, tuple, range, dict, str, bytes, set, frozenset)):
+            return v
+        raise NotConst("iteration over " + type(v).__name__)
+
     def _comp(self, node, mod, depth, local):
         if len(node.generators) != 1:
             raise NotConst("nested comprehension")
         g = node.generators[0]
-        it = self.ev(g.iter, mod, depth + 1, local)
+        it = self._iterable(self.ev(g.iter, mod, depth + 1, local))
         names = None
         if isinstance(g.target, (ast.Tuple, ast.List)) and all(isinstance(e_, ast.Name) for e_ in g.target.elts):
             names = [e_.id for e_ in g.target.elts]
@@ -299,6 +327,17 @@ class Folder:
                     raise NotConst(f"{n}(): {e}")
             if n == "range":
                 return range(*[ev(a) for a in node.args])
+            if n in ("zip", "enumerate", "dict") and n not in local and self.prog.resolve(mod, n) is None:
+                args = [self._iterable(ev(a)) if (n != "dict" or not isinstance(ev(a), dict)) else ev(a) for a in node.args]
+                try:
+                    if n == "zip" and not kw:
+                        return list(zip(*args))
+                    if n == "enumerate":
+                        return list(enumerate(*args, **kw))
+                    if n == "dict":
+                        return dict(*args, **kw)
+                except Exception as e:
+                    raise NotConst(f"{n}(): {e}")
             # single-return repo helper with constant args
             if n not in local:
                 r = self.prog.resolve(mod, n)
@@ -355,6 +394,22 @@ class Folder:
                 if not isinstance(pat, (str, bytes)) or not isinstance(flags, int):
                     raise NotConst("re.compile arguments")
                 return RegexVal(pat, flags)
+            if f.attr in ("unpack", "pack", "calcsize") and isinstance(f.value, ast.Name) and f.value.id == "struct" and not kw:
+                # struct.unpack(<const format>, <const bytes>): a pure function of its arguments
+                r_ = self.prog.resolve(mod, "struct")
+                if r_ is not None and r_[0] == "ext":
+                    import struct as _struct
+                    args = [ev(a) for a in node.args]
+                    try:
+                        return getattr(_struct, f.attr)(*args)
+                    except Exception as e:
+                        raise NotConst(f"struct.{f.attr}: {e}")
+            if f.attr == "fromhex" and isinstance(f.value, ast.Name) and f.value.id == "bytes" and len(node.args) == 1 and not kw:
+                v = ev(node.args[0])
+                try:
+                    return bytes.fromhex(v)
+                except Exception as e:
+                    raise NotConst(f"bytes.fromhex: {e}")
             if f.attr == "join":
                 sep = ev(f.value)
                 items = ev(node.args[0])
